@@ -433,6 +433,9 @@ class Engine:
             last_write = self.monitor.writes[-1] if self.monitor.writes else None
             locus = attr_locus(path)
             if last_write is not None:
+                # a traced attribute store on the diff path names the site exactly
+                if any(p == last_write[0] for p in (path or ())):
+                    locus = last_write[0]
                 locus = f"{locus}@{last_write[1]}"
             self.add_violation(
                 "shared_object_mutated",
